@@ -65,7 +65,7 @@ func leanInt(v int64) string { return fmt.Sprintf("(%d : Int)", v) }
 func leanU(v uint64, bits int) string {
 	return fmt.Sprintf("(%d : UInt%d)", v, bits)
 }
-func leanBytes(b []byte) string {
+func trLeanBytes(b []byte) string {
 	var p []string
 	for _, x := range b {
 		p = append(p, fmt.Sprint(x))
@@ -74,6 +74,13 @@ func leanBytes(b []byte) string {
 }
 func leanPt(p corpus.Pt) string {
 	return fmt.Sprintf("(⟨%d, %d, %d, %v⟩ : cp_Pt)", p.X, p.Y, p.Tag, p.On)
+}
+
+func hexOf(b []byte) string {
+	if len(b) == 0 {
+		return "-"
+	}
+	return fmt.Sprintf("%x", b)
 }
 
 func goErr(err error) string {
@@ -139,11 +146,11 @@ func corpusCases() []tcase {
 		add(fmt.Sprintf("cp_Switch %s", leanInt(sw)), func() string { return fmt.Sprint(corpus.Switch(int(sw))) })
 		buf := r.bytes()
 		ln := r.small()
-		add(fmt.Sprintf("cp_Loops %s %s", leanInt(int64(ln)), leanBytes(buf)), func() string { return fmt.Sprint(corpus.Loops(ln, buf)) })
+		add(fmt.Sprintf("cp_Loops %s %s", leanInt(int64(ln)), trLeanBytes(buf)), func() string { return fmt.Sprint(corpus.Loops(ln, buf)) })
 		ii, jj := r.intn(9)-1, r.intn(9)-1
-		add(fmt.Sprintf("cp_Index %s %s %s", leanBytes(buf), leanInt(int64(ii)), leanInt(int64(jj))), func() string { return fmt.Sprint(corpus.Index(buf, ii, jj)) })
-		add(fmt.Sprintf("cp_Short %s %s", leanBytes(buf), leanInt(int64(ii))), func() string { return fmt.Sprint(corpus.Short(buf, ii)) })
-		add(fmt.Sprintf("cp_Str %s", leanBytes(buf)), func() string { return fmt.Sprint(corpus.Str(string(buf))) })
+		add(fmt.Sprintf("cp_Index %s %s %s", trLeanBytes(buf), leanInt(int64(ii)), leanInt(int64(jj))), func() string { return fmt.Sprint(corpus.Index(buf, ii, jj)) })
+		add(fmt.Sprintf("cp_Short %s %s", trLeanBytes(buf), leanInt(int64(ii))), func() string { return fmt.Sprint(corpus.Short(buf, ii)) })
+		add(fmt.Sprintf("cp_Str %s", trLeanBytes(buf)), func() string { return fmt.Sprint(corpus.Str(string(buf))) })
 		sa, sb := int64(r.intn(700))-100, int64(r.intn(700))-100
 		add(fmt.Sprintf("cp_UseTwo %s %s", leanInt(sa), leanInt(sb)), func() string {
 			v, err := corpus.UseTwo(int(sa), int(sb))
@@ -165,6 +172,15 @@ func corpusCases() []tcase {
 		add(fmt.Sprintf("cp_Pt_Scaled %s %s", leanPt(p), leanInt(b)), func() string { return fmt.Sprint(p.Scaled(int(b))) })
 		add(fmt.Sprintf("cp_Panics %s", leanInt(int64(i%5))), func() string { return fmt.Sprint(corpus.Panics(i % 5)) })
 		add(fmt.Sprintf("cp_VarDecl %s", leanU(ua&255, 8)), func() string { return fmt.Sprint(corpus.VarDecl(uint8(ua))) })
+		rs := r.bytes()
+		if i%3 == 0 {
+			rs = []byte("aé€😀\xff\xed\xa0\x80")[:r.intn(14)]
+		}
+		rinc := int64(r.intn(70000)) - 300
+		add(fmt.Sprintf("cp_RuneBump %s %s", trLeanBytes(rs), leanInt(rinc)), func() string { return hexOf([]byte(corpus.RuneBump(string(rs), int(rinc)))) })
+		add(fmt.Sprintf("cp_RuneCount %s", trLeanBytes(rs)), func() string { return fmt.Sprint(corpus.RuneCount(string(rs))) })
+		sw2 := []string{"a", "bc", "", "b", "abc"}[i%5]
+		add(fmt.Sprintf("cp_StrSwitch %s", trLeanBytes([]byte(sw2))), func() string { return fmt.Sprint(corpus.StrSwitch(sw2)) })
 	}
 	return cs
 }
@@ -181,6 +197,8 @@ instance : Sh UInt64 := ⟨fun x => toString x.toNat⟩
 instance {α β} [Sh α] [Sh β] : Sh (α × β) := ⟨fun p => Sh.sh p.1 ++ " " ++ Sh.sh p.2⟩
 instance {α} [Sh α] : Sh (Option α) := ⟨fun o => match o with | none => "panic" | some a => Sh.sh a⟩
 instance : Sh (Option String) := ⟨fun o => if o.isSome then "err" else "nil"⟩
+def hexD (n : Nat) : Char := if n < 10 then Char.ofNat (48 + n) else Char.ofNat (87 + n)
+instance : Sh (List UInt8) := ⟨fun bs => if bs.isEmpty then "-" else String.ofList (bs.flatMap fun b => [hexD (b.toNat / 16), hexD (b.toNat % 16)])⟩
 `
 
 func translateCorpus(t *testing.T, fns []string) (string, error) {
@@ -205,7 +223,7 @@ func translateCorpus(t *testing.T, fns []string) (string, error) {
 
 var corpusFns = []string{"Kind.IsB", "Pt.Sum", "Pt.Scaled", "U8Arith", "U16Arith", "U32Bits", "U64Mul", "IntArith", "I32Arith", "IntBits", "IntNot",
 	"IntDiv", "IntRem", "IntDivK", "U32DivK", "ShlVar", "ShrVarSigned", "ShlInt", "ShrInt", "ShlConst", "Conv", "ConvSigned", "Consts", "Switch",
-	"Loops", "Index", "Short", "Str", "Two", "Check", "UseTwo", "Structs", "Panics", "VarDecl"}
+	"Loops", "Index", "Short", "Str", "Two", "Check", "UseTwo", "Structs", "Panics", "VarDecl", "RuneBump", "RuneCount", "StrSwitch"}
 
 func TestCorpusDifferential(t *testing.T) {
 	leanDir, _ := filepath.Abs("../../lean")
